@@ -123,6 +123,7 @@ func main() {
 	unwind := flag.Int("unwind", 64, "default loop bound")
 	tier := flag.String("tier", "quick", "quick | thorough (seen by harnesses through verifThorough)")
 	replay := flag.String("replay", "", "replay a violation file natively and print the trace")
+	flag.BoolVar(&nativeRace, "race", false, "build the native replay with the race detector")
 	flag.Parse()
 	thoroughTier = *tier == "thorough"
 	os.Setenv("VERIF_TIER", *tier)
